@@ -25,6 +25,12 @@ def build_ops(rng, spec, budget=96):
         st = rng.choice([0.25, 0.5, 1.0])
         ops.append(({'kind': 'moment', 'dist': dist, 'k': 1, 'start_time': st, 'end_time': st + et},
                     dict(kind='moment', k=1, rewards=[rw], start=st, end=st + et)))
+    # explicit zeros: an end time of exactly 0 (nothing accumulated) and - on an object built with a start time - an explicit start 0
+    ops.append(({'kind': 'moment', 'dist': 'total_branch_length', 'k': 1, 'end_time': 0.0},
+                dict(kind='moment', k=1, rewards=[['TotalBranchLength']], end=0.0)))
+    if spec.get('start_time'):
+        ops.append(({'kind': 'moment', 'dist': 'tree_height', 'k': 1, 'start_time': 0.0, 'end_time': 2.0},
+                    dict(kind='moment', k=1, rewards=[['TreeHeight']], start=0.0, end=2.0)))
     # cross moment through Coalescent.moment with explicit rewards
     ops.append(({'kind': 'moment', 'route': 'coal', 'k': 2, 'rewards': [['TreeHeight'], ['TotalBranchLength']], 'center': True},
                 dict(kind='moment', k=2, rewards=[['TreeHeight'], ['TotalBranchLength']], center=True)))
@@ -94,6 +100,9 @@ def run(res, replay=None):
         # taking effect at time 0, and only then are the moments asked for
         specs.append({'n_items': [['a', 4]], 'model': {'kind': 'kingman'}, 'pop_sizes': {'a': {'0.0': 1.0}},
                       'late_events': [{'type': 'PopSizeChange', 'pop': 'a', 'time': 0.0, 'size': 2.0}], 'designed': 'late_event'})
+        # designed: an object built with a start time, asked for a moment from an EXPLICIT start 0
+        specs.append({'n_items': [['a', 3]], 'model': {'kind': 'kingman'}, 'pop_sizes': {'a': {'0.0': 1.0, '0.75': 2.0}}, 'start_time': 0.5, 'end_time': 6.0,
+                      'designed': 'explicit_zero_start'})
         specs.append({'n_items': [['a', 2], ['b', 1]], 'model': {'kind': 'beta', 'alpha': 1.5}, 'pop_sizes': {'a': {'0.0': 1.0, '1.0': 4.0}, 'b': {'0.0': 2.0}},
                       'migration_rates': {'a>b': {'0.0': 0.5}, 'b>a': {'0.0': 0.25}}, 'late_touch_bc': True,
                       'late_events': [{'type': 'PopSizeChange', 'pop': 'b', 'time': 0.0, 'size': 0.5},
@@ -101,6 +110,8 @@ def run(res, replay=None):
     cases = []
     for j, s in enumerate(specs):
         ops = build_ops(rng, s, budget=(96 if res.tier == 'quick' else 180))
+        if s.get('start_time'):
+            ops = [o for o in ops if o[1]['k'] == 1]      # a start time is claimed for first moments only
         c_ = {'spec': s, 'ops': [o[0] for o in ops], '_q': [o[1] for o in ops]}
         bs_ = sorted({float(t) for d in s['pop_sizes'].values() for t in d})
         if (j % 3 == 1 or s.get('designed') == 'slow_then_fast') and len(bs_) > 1 and s.get('end_time') is None:
@@ -120,6 +131,8 @@ def run(res, replay=None):
         for q in c['_q']:
             q = dict(q)
             q.setdefault('end', end_default)
+            if c['spec'].get('start_time'):
+                q.setdefault('start', c['spec']['start_time'])
             qs.append(q)
         # the default horizon itself: the MODEL cdf at the implementation's t_max must have reached the absorption probability
         qs.append(dict(kind='cdf', ts=[r['t_max']]))
